@@ -129,7 +129,13 @@ fn read_doc(bytes: &[u8], src: Src, from_str: Option<&str>) -> Result<Seen, Stri
                         Event::Text(t) => {
                             seen.kinds.push(4);
                             d(t)?;
-                            seen.strings.push(t.unescape().map_err(|e| format!("text: {:?}", e))?.into_owned());
+                            let borrowed = t.unescape().map_err(|e| format!("text: {:?}", e))?.into_owned();
+                            // the detached copy of the event must decode the same way
+                            let detached = t.clone().into_owned().unescape().map(|c| c.into_owned()).map_err(|e| format!("{:?}", e));
+                            if detached.as_ref() != Ok(&borrowed) {
+                                return Err(format!("DISAGREE: BytesText::into_owned().unescape() gives {:?}, the borrowed event {:?}", detached, borrowed));
+                            }
+                            seen.strings.push(borrowed);
                         }
                         Event::CData(t) => {
                             seen.kinds.push(5);
